@@ -17,7 +17,7 @@ LABELINGS = [
 
 
 def bounds(tier):
-    return dict(D=[1, 2], labelings=[l for _, l in LABELINGS], whitening_N=[3, 4] if tier == "quick" else [3, 4, 5])
+    return dict(D=[1, 2] if tier == "quick" else [1, 2, 3], labelings=[l for _, l in LABELINGS], whitening_N=[3, 4] if tier == "quick" else [3, 4, 5])
 
 
 def o_chol_inv(B, S, D, staged=False):
@@ -37,8 +37,11 @@ def o_chol_inv(B, S, D, staged=False):
 
 def assume_pd(B, S, D):
     B.assume(S[0][0] > 0)
-    if D == 2:
+    if D >= 2:
         B.assume(S[0][0] * S[1][1] - S[0][1] * S[1][0] > 0)
+    if D == 3:
+        det = (S[0][0] * (S[1][1] * S[2][2] - S[1][2] * S[2][1]) - S[0][1] * (S[1][0] * S[2][2] - S[1][2] * S[2][0]) + S[0][2] * (S[1][0] * S[2][1] - S[1][1] * S[2][0]))
+        B.assume(det > 0)
 
 
 def scatter(X, groups, D, scale):
@@ -178,4 +181,10 @@ def jobs(tier):
             out.append(("wccn@D%d-%s" % (D, name), "job_wccn", dict(D=D, name=name, labels=labels)))
         for N in bounds(tier)["whitening_N"]:
             out.append(("whitening@D%dN%d" % (D, N), "job_whitening", dict(D=D, N=N)))
+    if tier == "thorough":
+        # D = 3, staged through the inverse / Cholesky contract
+        for name, labels in LABELINGS:
+            if len(labels) - len(set(labels)) >= 3:
+                out.append(("wccn@D3-%s" % name, "job_wccn", dict(D=3, name=name, labels=labels)))
+        out.append(("whitening@D3N5", "job_whitening", dict(D=3, N=5)))
     return out
